@@ -16,7 +16,15 @@ where, double precision cannot decide.
 Relations (tree edges and metamorphic pairs): amplitude scaling by 2, -2, 3; prepending k zeros
 (start and end shift by k*dt); nesting of fraction intervals; bracketed duration against the
 exact exceedance set for six thresholds, its monotonicity in the threshold and the joint
-scaling of record and threshold.
+scaling of record and threshold.  The relations that need extra executions (scaling, zero
+prefix, joint scaling) are run for the words one level below the length bound (case['rel']);
+nesting and threshold monotonicity use the base executions and are checked for every word.
+
+Zero prefix: the k*dt shift follows from the crossing definition exactly when the running
+series of the measure is shift-covariant - always for the running sum of squares and the
+staircase, for the trapezoid measures (Arias, calc_cav) iff the record starts at 0.  For
+a[0] != 0 the prepended zero creates the panel between 0 and a[0]; there the prefixed record is
+checked against the crossing definition itself (see the assumptions in build()).
 """
 import itertools
 import os
